@@ -2,7 +2,9 @@ package main
 
 import (
 	"encoding/json"
+	"fmt"
 	"math/rand"
+	"strings"
 
 	"github.com/opencontainers/go-digest"
 	ocispec "github.com/opencontainers/image-spec/specs-go/v1"
@@ -214,6 +216,13 @@ func scripted() map[string]input {
 			out[name+"_readonly"+sfx] = input{Mech: "readonly", UnderImm: ui, Setup: s.build, Ops: s.attack}
 		}
 		out[name+"_whole_immutable"] = input{Mech: "immutable", Ops: append(append([]memsim.Op{}, s.build...), s.attack...)}
+		// the wrappers are specified over ANY wrapped registry: the same histories with the
+		// registry handed over under other dynamic types (wrap.go)
+		for _, w := range wrapKinds[1:] {
+			out[name+"_immutable_"+w] = input{Mech: "immutable", Wrap: w, Setup: s.build, Ops: s.attack}
+			out[name+"_readonly_"+w] = input{Mech: "readonly", Wrap: w, UnderImm: w == "embed", Setup: s.build, Ops: s.attack}
+		}
+		out[name+"_whole_immutable_funcs"] = input{Mech: "immutable", Wrap: "funcs", UnderImm: true, Ops: append(append([]memsim.Op{}, s.build...), s.attack...)}
 	}
 	// the corpus scenarios also through the wrappers (no uploads in them)
 	for name, s := range scenarios() {
@@ -342,6 +351,9 @@ func randomInput(rnd *rand.Rand, i int) input {
 		in.Mech = "readonly"
 		in.UnderImm = rnd.Intn(3) == 0
 	}
+	if in.Mech != "immtags" && rnd.Intn(2) == 0 {
+		in.Wrap = wrapKinds[1+rnd.Intn(len(wrapKinds)-1)]
+	}
 	g := memsim.NewGen(rnd, i%7 == 6)
 	t := &tracker{g: g, r: rnd, mans: map[string][]manRec{}}
 	under, mech := build(in)
@@ -420,6 +432,138 @@ func concInput(rnd *rand.Rand, i int) input {
 			}
 		}
 		in.Threads = append(in.Threads, th)
+	}
+	if rnd.Intn(2) == 0 {
+		for _, th := range in.Threads {
+			g := make([]float64, len(th))
+			for j := range g {
+				if rnd.Intn(2) == 0 {
+					g[j] = rnd.Float64()
+				}
+			}
+			in.Gaps = append(in.Gaps, g)
+		}
+	}
+	return in
+}
+
+// ---- duels: an operation and the one that must not be let through in the middle of it ----
+
+// annotatedImage: an image manifest over the given layers, made distinct by an annotation
+func annotatedImage(note string, cfg []byte, layers ...[]byte) []byte {
+	return paddedImage(note, 0, cfg, layers...)
+}
+
+// paddedImage: the same with a second annotation of the given length (a manifest with a long
+// description; decoding it takes proportionally longer)
+func paddedImage(note string, pad int, cfg []byte, layers ...[]byte) []byte {
+	m := ocispec.Manifest{MediaType: mtImage, Config: descOf(ocispec.MediaTypeImageConfig, cfg)}
+	m.SchemaVersion = 2
+	for _, l := range layers {
+		m.Layers = append(m.Layers, descOf("application/layer", l))
+	}
+	m.Annotations = map[string]string{"org.example.note": note}
+	if pad > 0 {
+		m.Annotations["org.opencontainers.image.description"] = strings.Repeat("lorem ipsum ", pad/12+1)[:pad]
+	}
+	b, _ := json.Marshal(m)
+	return b
+}
+
+func paddedIndex(pad int, children ...ocispec.Descriptor) []byte {
+	ix := ocispec.Index{MediaType: mtIndex, Manifests: children}
+	ix.SchemaVersion = 2
+	if pad > 0 {
+		ix.Annotations = map[string]string{"org.opencontainers.image.description": strings.Repeat("lorem ipsum ", pad/12+1)[:pad]}
+	}
+	b, _ := json.Marshal(ix)
+	return b
+}
+
+// duelInput: in immutable-tags mode a delete is "walk the tags, then remove" and a tagged push is
+// "look at the tag and at what the manifest names, then store": each must be one step.  The
+// repository gets some ballast (tagged images: the walk of a delete visits them all), then one
+// goroutine deletes a victim that nothing tagged names yet while another pushes, under a fresh
+// tag, a manifest that names the victim directly (a layer, the config, an index entry) - or two
+// goroutines push different manifests under the same fresh tag.  The second goroutine starts at a
+// random point of the span of the first one's operation (input.Gaps); a few more operations on the
+// same names follow.  Whatever the outcome, it must be the outcome of SOME order of the operations.
+func duelInput(rnd *rand.Rand, i int) input {
+	in := input{Mech: "immtags"}
+	repo := "r1"
+	pad := []byte("pad")
+	victimBlob := []byte{'v', byte('a' + rnd.Intn(3))}
+	in.Setup = []memsim.Op{pushBlob(repo, config), pushBlob(repo, pad), pushBlob(repo, victimBlob)}
+	// ballast: a few tagged images with long descriptions (what matters is how long the walk
+	// over the tags takes, and that is the time to decode what they point at)
+	ballast := 2 + rnd.Intn(4)
+	padLen := []int{1500, 3000, 6000}[rnd.Intn(3)]
+	for k := 0; k < ballast; k++ {
+		in.Setup = append(in.Setup, pushMan(repo, fmt.Sprintf("s%d", k), paddedImage(fmt.Sprintf("ballast-%d", k), padLen, config, pad), mtImage))
+	}
+	tag := "n1"
+	// the pushed manifests carry a long description half of the time: then it is the push whose
+	// span (decoding and checking what the manifest names) is long enough to aim at
+	apad := []int{0, 0, 1500, 6000}[rnd.Intn(4)]
+	var first, second memsim.Op // the two duellists
+	var extras []memsim.Op      // what the tails draw from
+	switch k := rnd.Intn(10); {
+	case k < 3: // a layer
+		adopter := paddedImage("adopter", apad, config, pad, victimBlob)
+		first, second = delBlob(repo, victimBlob), pushMan(repo, tag, adopter, mtImage)
+		extras = []memsim.Op{getBlob(repo, victimBlob), delBlob(repo, victimBlob), getMan(repo, adopter), delMan(repo, adopter)}
+	case k < 5: // the config
+		adopter := paddedImage("adopter", apad, victimBlob, pad)
+		first, second = delBlob(repo, victimBlob), pushMan(repo, tag, adopter, mtImage)
+		extras = []memsim.Op{getBlob(repo, victimBlob), delBlob(repo, victimBlob), pushMan(repo, "", adopter, mtImage), delMan(repo, adopter)}
+	case k < 8: // an index entry
+		victim := annotatedImage("victim", config, pad)
+		in.Setup = append(in.Setup, pushMan(repo, "", victim, mtImage))
+		adopter := paddedIndex(apad, descOf(mtImage, victim))
+		first, second = delMan(repo, victim), pushMan(repo, tag, adopter, mtIndex)
+		extras = []memsim.Op{getMan(repo, victim), delMan(repo, victim), delMan(repo, adopter), pushMan(repo, "", victim, mtImage), delBlob(repo, pad)}
+	default: // two contents for one fresh tag
+		p := paddedImage("p", apad, config, pad)
+		q := paddedImage("q", apad, config, pad, victimBlob)
+		first, second = pushMan(repo, tag, p, mtImage), pushMan(repo, tag, q, mtImage)
+		extras = []memsim.Op{pushMan(repo, tag, p, mtImage), pushMan(repo, tag, q, mtImage), delBlob(repo, victimBlob), delMan(repo, p), delMan(repo, q)}
+	}
+	extras = append(extras, getTag(repo, tag), resTag(repo, tag), delTag(repo, tag), second, first)
+	tail := func(n int) []memsim.Op {
+		var t []memsim.Op
+		for j := 0; j < n; j++ {
+			t = append(t, extras[rnd.Intn(len(extras))])
+		}
+		return t
+	}
+	if rnd.Intn(2) == 0 { // either operation may be the one with a window in it
+		first, second = second, first
+	}
+	a := append([]memsim.Op{first}, tail(rnd.Intn(3))...)
+	b := append([]memsim.Op{second}, tail(rnd.Intn(3))...)
+	in.Threads = [][]memsim.Op{a, b}
+	if rnd.Intn(3) == 0 {
+		in.Threads = append(in.Threads, tail(1+rnd.Intn(2)))
+	}
+	for ti, th := range in.Threads {
+		g := make([]float64, len(th))
+		for j := range g {
+			switch {
+			case j == 0 && ti == 0:
+				if rnd.Intn(3) == 0 {
+					g[j] = 0.4 * rnd.Float64()
+				}
+			case j == 0:
+				g[j] = 1.1 * rnd.Float64()
+			case rnd.Intn(2) == 0:
+				g[j] = 0.6 * rnd.Float64()
+			}
+		}
+		in.Gaps = append(in.Gaps, g)
+	}
+	if rnd.Intn(2) == 0 { // which goroutine is created first should not matter
+		in.Threads[0], in.Threads[1] = in.Threads[1], in.Threads[0]
+		in.Gaps[0], in.Gaps[1] = in.Gaps[1], in.Gaps[0]
 	}
 	return in
 }
